@@ -32,6 +32,7 @@ type check struct {
 	post        func(*ev.Report)
 	level       string
 	maxWorkers  int
+	env         []string // environment the check's processes need (set by re-executing vsim)
 	rule        string
 	assumptions []string
 	components  map[string]string
@@ -185,6 +186,9 @@ var registry = map[string]check{
 		components:  compR,
 	},
 	"C18": {
+		// panicnil=1: a panic whose value is nil stays nil (the default of main modules that
+		// declare go <= 1.20); it changes nothing else
+		env:    []string{"GODEBUG=panicnil=1"},
 		parts:  []part{{"runtime", layerr.C18, 32, 192}, {"compiled", layerc.C18, 16, 128}},
 		replay: replayAny, level: "fault_enumeration",
 		rule:        "for each sampled (terms, consumer ops, thread interleaving) with J generator-side effects in the fault-free run, J further runs arm a panic with a unique value at effect j (every j, capped at 120 quick / 400 thorough per run). Oracle (self-relative): identical history up to effect j, the consumer call that was executing ends in a panic carrying exactly the armed value, no later event of that iterator, all other iterators' projections unchanged; secondary: the reference coroutine's history under the same fault is identical. Non-trivial = the run yields at least once; distinct = digest of (scenario, j).",
